@@ -44,6 +44,10 @@ type Property struct {
 
 var Registry = map[string]*Property{}
 
+// MapOrderControlled is true when the binary was built with the map-order
+// overlay (DESIGN.md 2.5).
+var MapOrderControlled bool
+
 func Register(p *Property) { Registry[p.ID] = p }
 
 type knownLine struct {
@@ -457,6 +461,7 @@ func driverMain(id, tier string) int {
 	cov["vacuous_scenarios"] = vacuous
 	cov["incidents"] = incidents
 	cov["workers"] = ncpu
+	cov["map_order_controlled"] = MapOrderControlled
 	if p.Level != "model_checking" {
 		delete(cov, "states")
 		delete(cov, "transitions")
@@ -482,7 +487,7 @@ func replayMain(path string) int {
 	}
 	var rep struct {
 		Property, Clause, Check, Tier, Scenario, Seed string
-		History                                        []string
+		History                                       []string
 	}
 	if err := json.Unmarshal(b, &rep); err != nil {
 		fmt.Fprintln(os.Stderr, err)
